@@ -181,7 +181,11 @@ def coq_expr(t, sigs):
         if k == "d_rep":
             return f"(mk_replicate {ce(t[1])} {t[2]}%nat)"
         if k == "d_match":
-            return f"(mk_matches {ce(t[1])} [" + "; ".join(coq_pattern(p) for p in t[2]) + "])"
+            # the patterns as the user wrote them (t[3]); normalisation is the model's job
+            ch = {"0": "C0", "1": "C1", "-": "CDash", " ": "CSpace", "\t": "CTab"}
+            raw = [("RStr [" + "; ".join(ch.get(c, "COther") for c in p) + "]") if isinstance(p, str) else f"RInt {z(p)}"
+                   for p in t[3]]
+            return f"(oget (mk_matches_raw {ce(t[1])} [" + "; ".join(raw) + "]))"
         if k == "d_idx":
             return f"(mk_index {ce(t[1])} {z(t[2])})"
         if k == "d_slice":
@@ -370,7 +374,10 @@ class Gen:
                         norm.append(_binpat(w, v))
                 else:
                     p = "".join(r.choice("01-") for _ in range(w))
-                    raw.append(p if w < 2 or r.random() < 0.7 else p[:1] + " " + p[1:])
+                    q = p if w < 2 or r.random() < 0.7 else p[:1] + r.choice((" ", "\t", "  ")) + p[1:]
+                    if r.random() < 0.04:
+                        q = r.choice((q + "0", q[1:], "x" + q[1:], q + "_"))      # wrong width / illegal character
+                    raw.append(q)
                     norm.append(p)
             return ["d_match", e, norm, raw]
         if c == 7:
